@@ -396,6 +396,77 @@ func checkC13(c *Ctx) {
 
 	phase("strings")
 
+	// ---- (2a) the same literals at every SITE of the grammar where an expression may stand (spec/MC_StrSite):
+	// a literal denotes the same characters wherever it is written
+	siteLen := 3
+	if thorough {
+		siteLen = 4
+	}
+	type siteVec struct {
+		Site string   `json:"site"`
+		Prog []string `json:"prog"`
+		OK   bool     `json:"ok"`
+		Val  []string `json:"val"`
+		Doc  bool     `json:"doc"`
+		Out  []string `json:"out"`
+	}
+	siteSeen := map[string]int{}
+	stSite := pool.NewStream(func(j *Job, r Result) {
+		var v siteVec
+		VecDecode([]byte(j.Tag), &v)
+		if !c13Conclusive(r) {
+			return
+		}
+		rep := map[string]any{"site": v.Site, "program": string(j.Prog), "program_syms": v.Prog, "expected_ok": v.OK, "expected_stdout": string(symsToBytes(v.Out)),
+			"denoted_value": string(symsToBytes(v.Val)), "got_class": r.Class, "got_stdout": string(r.Stdout), "got_msg": r.ErrMsg}
+		if len(j.Files) > 0 {
+			rep["document"] = string(j.Files[0].Data)
+		}
+		if v.OK {
+			if r.Class != "ok" || !bytes.Equal(r.Stdout, symsToBytes(v.Out)) {
+				c.Violation("string-site-value", rep)
+				return
+			}
+		} else if r.Class != "runtime" {
+			c.Violation("string-site-bad-escape", rep)
+			return
+		}
+		c.Case("site:"+string(j.Prog), bytes.IndexByte(j.Prog, '\\') >= 0)
+		siteSeen[v.Site]++
+		if siteSeen[v.Site] == 401 && len(siteSeen)%6 == 0 {
+			c.Sample(rep)
+		}
+	})
+	allSites := []string{"print", "printlist", "assign", "addassign", "concatl", "concatr", "eqdoc", "neqdoc", "not", "cond", "whilecond", "arg", "ret", "elem", "objval",
+		"recv", "recvsplit", "methodarg", "printfarg", "printffmt", "forin", "subset", "subget", "subgetdoc", "subsetget", "subnested", "subincr", "subaddassign",
+		"subdocassign", "subdelete", "matchsubj", "matchpat", "matcharr", "matchres", "tildesubj", "grouped", "andor"}
+	c.TLC(TLCOpt{Module: "MC_StrSite", Workers: 8, Heap: "6g",
+		Cfg: cfgText("INIT Init", "NEXT Next", "CONSTANTS", fmt.Sprintf("MaxLen = %d", siteLen), `Sites = {"`+strings.Join(allSites, `", "`)+`"}`,
+			"INVARIANT Laws", "INVARIANT Vec", "CHECK_DEADLOCK FALSE"),
+		OnVec: func(raw []byte) {
+			var v siteVec
+			VecDecode(raw, &v)
+			j := Job{Kind: "run", Prog: symsToBytes(v.Prog), Tag: string(raw)}
+			if v.Doc { // the independent copy of the denoted bytes: {"k": val, val: 5}
+				val := "x"
+				if v.OK {
+					val = string(symsToBytes(v.Val))
+				}
+				kq, _ := json.Marshal(val)
+				j.Files = []FileIn{{Name: "in.json", Data: []byte(`{"k": ` + string(kq) + `, ` + string(kq) + `: 5}`)}}
+			}
+			stSite.Submit(j)
+		}})
+	stSite.Wait()
+	for _, s := range allSites {
+		if siteSeen[s] == 0 {
+			infra("C13: no literal was compared at site %q", s)
+		}
+	}
+	c.Set("string_literal_sites", siteSeen)
+
+	phase("string_sites")
+
 	// ---- (2b) numeric literals: the value is the decimal reading
 	numInt, numFrac := 3, 2
 	if thorough {
@@ -687,10 +758,13 @@ func checkC13(c *Ctx) {
 	c.Set("exhaustive", true)
 	c.Set("rule", "token level: every text up to MaxLen over {a 1 - . + = SP LF \" '} and {a # \" ' LF SP 1 ;}, every ordered pair (thorough: triple) of universe tokens x gap kind x quote; "+
 		"non-trivial = at least two tokens (or an error after a token); strings: every body up to StrLen over {a \\ n t z ' \" SP LF}, non-trivial = contains a backslash; "+
+		"string sites: every body up to SiteLen (and a backslash before every other printable byte) in either quote style written at each of 37 sites of the grammar (print list, assignment, += , both sides of + and of comparisons against a document member, ! , if / while condition, && ||, parentheses, "+
+		"user-function / printf / method argument, method receiver, return value, array element, object value, for-in subject, the brackets of a subscript that is read / assigned / incremented / += / nested / applied to $ / used to reach a member, match subject / pattern / array pattern / result, subject of ~): "+
+		"the denoted bytes are printed or confronted with the same bytes coming from the input document, a for-in key or a variable; a bad escape is a runtime error at every site; "+
 		"numbers: every spelling I[.F] with I up to NumInt digits over {0 1 7 8}, F up to NumFrac digits, plus a catalogue of long/special spellings, each in ~16 program positions, non-trivial = the literal is not its own printed form; "+
 		"programs: 7 systematic layouts per corpus program (exhaustive) + LayoutsPerProgram random permitted layouts chosen by TLC -simulate (seed = 1000*seed+shard), non-trivial = text differs from the corpus text; distinct by text")
-	c.Set("checker_cmd", "tlc MC_Lex / MC_LexPair / MC_LexStr / MC_LexProg (BFS + -simulate); replay through Lexer.Next/Regex and lang.EvalProgram")
-	c.Set("bounds", map[string]int{"MaxLen": runs[0].maxLen, "MaxArity": arities[len(arities)-1], "StrLen": strLen, "NumInt": numInt, "NumFrac": numFrac, "CorpusPrograms": len(progs),
+	c.Set("checker_cmd", "tlc MC_Lex / MC_LexPair / MC_LexStr / MC_StrSite / MC_LexProg (BFS + -simulate); replay through Lexer.Next/Regex and lang.EvalProgram")
+	c.Set("bounds", map[string]int{"MaxLen": runs[0].maxLen, "MaxArity": arities[len(arities)-1], "StrLen": strLen, "SiteLen": siteLen, "NumInt": numInt, "NumFrac": numFrac, "CorpusPrograms": len(progs),
 		"LayoutsPerProgram": perProg + 7, "SimShards": shards})
 	for _, k := range []string{"none", "sp", "tab", "cr", "nl", "cmt", "crnl", "semi", "cmteof"} {
 		if kindSeen[k] == 0 {
